@@ -623,7 +623,8 @@ class SinkUpdate(NodeUpdate):
     cls = 'sink'
     file = 'streamz/sinks.py'
     files = ['streamz/sinks.py', 'streamz/core.py']
-    props = ['C01', 'C02', 'C03', 'C04', 'C16']
+    # the sink is the consumer end of every pipeline: what it hands back is what buffering / timed / latest nodes await
+    props = ['C01', 'C02', 'C03', 'C04', 'C05', 'C08', 'C10', 'C13', 'C14', 'C16']
 
     def make_self(self, I):
         return {'func': VCallable('func'), 'args': ARGS, 'kwargs': KWARGS}
